@@ -61,6 +61,17 @@ class PersistentHashWalkMapper(WalkMapper):
 
         self.key_hash.update(repr(expr).encode("utf8"))
 
+    def map_call_with_kwargs(self, expr):
+        if self.visit(expr):
+            self.rec(expr.function)
+            for child in expr.parameters:
+                self.rec(child)
+            # keyword arguments are a mapping: equal calls hash alike
+            # whatever order they were written in
+            for name, child in sorted(expr.kw_parameters.items()):
+                self.key_hash.update(name.encode("utf8"))
+                self.rec(child)
+
     def map_comparison(self, expr):
         if self.visit(expr):
             self.rec(expr.left)
